@@ -43,7 +43,9 @@ ASSUMPTIONS = [
     'values are integers; versions are integers',
 ]
 
-KNOWN = 'incr_at_expiry_instant'
+# Former finding C19-F1 (D6, fixed in core.py): incr/decr exactly at the expiry instant incremented an item no lookup
+# could see.  The sig is kept so that the defect is recognised by name if it ever returns; nothing is tolerated.
+REGRESSION = 'incr_at_expiry_instant'
 TICK = 2.0 ** -10
 T0 = 1000.0
 DEF = 'default'          # JSON stand-in for django's DEFAULT_TIMEOUT sentinel
@@ -153,7 +155,7 @@ class Reference:
             self.d[vk] = [value, now + t]
         elif from_default and t == 0:
             # backend TIMEOUT = 0: expired at once (never live, since live needs now < expiry); the instant is
-            # remembered only so that the known incr defect can be told apart at this very instant
+            # remembered only so that a return of the incr-at-expiry defect (D6) is recognised at this very instant
             self.d[vk] = [value, now]
         else:
             self.d.pop(vk, None)            # zero or negative: already expired, the key is absent
@@ -352,10 +354,7 @@ class Runner:
             sig = 'mismatch_' + o
             if (pre is not None and pre[1] is not None and pre[1] == now and exp == ['raise', 'ValueError']
                     and obs == ['int', pre[0] + signed_delta(op)]):
-                # Cache.incr tests `expire_time < now`, lookups `expire_time > now`: the item nobody can see is
-                # incremented.  Remember the hidden value only to recognise a repeated incr at this instant.
-                sig = KNOWN
-                ref.d[touched[0]][0] = obs[1]
+                sig = REGRESSION            # D6 is back: `expire_time < now` in Cache.incr where lookups use `>`
             dis = (sig, 'reference')
         elif lmr is not None and lmr != obs:
             if o == 'delete' and lm_stale:
@@ -768,8 +767,7 @@ def run_history(res, st, params, clock, mkdir, ops=None, rng=None, length=0, nam
                             'clock_equals_an_outstanding_expiry': rec['at']}, limit=5)
             if rec['dis']:
                 report(res, st, params, done, i, rec, clock, mkdir)
-                if rec['dis'][0] != KNOWN:
-                    break                   # states may have diverged: later calls would only echo this one
+                break                       # states may have diverged: later calls would only echo this one
     finally:
         st.stale += r.stale_excluded
         r.close()
@@ -799,28 +797,34 @@ def monitor(ctx, res, nrandom, lo, hi, st=None):
     return out
 
 
-def witness_incr_at_expiry():
-    """set('k', 5, timeout=5) at 1000; at 1005 get/has_key cannot see it but incr returns 6 instead of ValueError."""
-    d = tempfile.mkdtemp(prefix='c19wit-')
+REGRESSION_PARAMS = {'SHARDS': 1, 'TIMEOUT': 300, 'KEY_PREFIX': '', 'VERSION': 1}
+
+
+def regression_ops():
+    """The failing input of the former finding C19-F1: set('a', 5, timeout=5) at t=1000; incr('a') at t=1005."""
+    return [mkop('set', T0, key='a', value=5, timeout=5), mkop('incr', T0 + 5, key='a')]
+
+
+def regression_incr_at_expiry(ctx, res):
+    """Checked on every run (a `fixed:` entry suppresses nothing): incr('a') at the expiry instant must raise
+    ValueError; if it returns 6 again that is a violation with the old sig."""
     clock = instr.Clock(T0)
-    try:
-        with instr.Installed(clock, extra_modules=[dj_base, dj_locmem]):
-            c = DjangoCache(d, {'SHARDS': 1})
-            try:
-                c.set('k', 5, timeout=5)
-                clock.set(T0 + 5)
-                unseen = c.get('k') is None and c.has_key('k') is False
-                try:
-                    got = c.incr('k')
-                except ValueError:
-                    return False
-                return bool(unseen and got == 6)
-            finally:
-                c.close()
-    except Exception:  # noqa: BLE001
-        return False
-    finally:
-        shutil.rmtree(d, ignore_errors=True)
+    ops = regression_ops()
+    with instr.Installed(clock, extra_modules=[dj_base, dj_locmem]):
+        recs = execute(REGRESSION_PARAMS, ops, clock, lambda: ctx.scratch('c19reg'))
+    rec = recs[-1]
+    res.count(['c19-regression', rec['impl']], nontrivial=True)
+    ok = rec['dis'] is None and rec['impl'] == ['raise', 'ValueError']
+    res.extra['regression_incr_at_expiry_instant'] = (
+        'passes: incr at now == expire_time raises ValueError' if ok else 'FAILS: DjangoCache -> %s' % show(rec['impl']))
+    if not ok:
+        sig = rec['dis'][0] if rec['dis'] else REGRESSION
+        res.violations.append(fw.Violation(
+            sig, '%s: DjangoCache -> %s, contract -> %s (regression of the fixed finding C19-F1 / D6)' % (
+                show_op(ops[-1]), show(rec['impl']), show(rec['ref'])),
+            {'check': 'history', 'params': REGRESSION_PARAMS, 'ops': ops, 'failing_index': 1, 'expected': rec['ref'],
+             'observed': rec['impl'], 'oracle': 'reference', 'locmem': rec['lm'], 'reference': rec['ref']}))
+    return ok
 
 
 # ---------------------------------------------------------------------------
@@ -994,7 +998,7 @@ def run(ctx):
         limit = 15000
     # directed histories first, then a spread of the generated ones
     correspondence(ctx, res, hists, limit)
-    res.witnessed[KNOWN] = witness_incr_at_expiry()
+    regression_incr_at_expiry(ctx, res)
     return res
 
 
@@ -1002,7 +1006,7 @@ def search(ctx, broken):
     res = fw.Result()
     res.rule = RULE
     monitor(ctx, res, 400 if ctx.quick else 3000, 22, 34)
-    res.witnessed[KNOWN] = witness_incr_at_expiry()
+    regression_incr_at_expiry(ctx, res)
     return res
 
 
